@@ -25,8 +25,15 @@ pub mod dom {
     pub struct XmlElement { pub h: usize }
     pub struct XmlAttr { pub h: usize }
     pub struct Other { pub h: usize }
-    // dom::XmlNode: lang() distinguishes element nodes from all others
-    pub enum XmlNode { Element(XmlElement), NotElement(Other) }
+    // dom::XmlNode: lang() distinguishes element and attribute nodes from all others
+    pub enum XmlNode { Element(XmlElement), Attribute(XmlAttr), NotElement(Other) }
+    // the DOM as lang() reads it (uninterpreted): parent_node(), the element of an attribute, the value of the attribute an
+    // element carries under the local name `lang`, and a termination measure (distance from the root)
+    pub uninterp spec fn dom_parent_of(n: XmlNode) -> Option<XmlNode>;
+    pub uninterp spec fn owner_of(a: XmlAttr) -> Option<XmlElement>;
+    pub uninterp spec fn lang_attr_of(e: XmlElement) -> Option<XmlAttr>;
+    pub uninterp spec fn attr_value_of(a: XmlAttr) -> Seq<char>;
+    pub uninterp spec fn depth(n: XmlNode) -> nat;
     pub struct DomError { pub h: usize }
     impl XmlNode {
         // AsExpandedName: (local part, prefix, namespace URI) of element / attribute / PI / namespace nodes, None otherwise
@@ -34,17 +41,25 @@ pub mod dom {
         pub fn as_expanded_name(&self) -> (r: core::result::Result<Option<(String, Option<String>, Option<String>)>, crate::error::Error>) { unimplemented!() }
         #[verifier::external_body]
         pub fn clone(&self) -> (r: XmlNode) ensures r == *self { unimplemented!() }
+        #[verifier::external_body]
+        pub fn parent_node(&self) -> (r: Option<XmlNode>) ensures r == dom_parent_of(*self) { unimplemented!() }
     }
     impl XmlElement {
+        // element.get_attribute_node("lang"): the attribute with the local name `lang`, if the element carries one
         #[verifier::external_body]
-        pub fn get_attribute_node(&self, name: &str) -> (r: Option<XmlAttr>) { unimplemented!() }
+        pub fn shim_lang_attribute(&self) -> (r: Option<XmlAttr>) ensures r == lang_attr_of(*self) { unimplemented!() }
         #[verifier::external_body]
-        pub fn parent_node(&self) -> (r: Option<XmlNode>) { unimplemented!() }
+        pub fn as_node(&self) -> (r: XmlNode) ensures r == XmlNode::Element(*self) { unimplemented!() }
     }
     impl XmlAttr {
         #[verifier::external_body]
-        pub fn value(&self) -> (r: core::result::Result<String, crate::error::Error>) { unimplemented!() }
+        pub fn value(&self) -> (r: core::result::Result<String, crate::error::Error>) ensures r is Ok ==> r->Ok_0@ == attr_value_of(*self) { unimplemented!() }
     }
+    // attr.owner_element().map(|v| v.as_node()): the element of the attribute, as a node
+    #[verifier::external_body]
+    pub fn shim_owner_node(a: &XmlAttr) -> (r: Option<XmlNode>)
+        ensures r == (match owner_of(*a) { Some(e) => Some(XmlNode::Element(e)), None => None::<XmlNode> }),
+    { unimplemented!() }
 }
 pub mod error {
     pub enum Error { Dom(usize), InvalidType, InvalidArgumentCount(String), NotFoundFunction(String), NotFoundNamespace(String), NotFoundVariable(String) }
@@ -121,6 +136,43 @@ pub fn shim_split_once(s: &String, p: &String) -> (r: Option<(String, String)>)
         None => !occurs(s@, p@),
     },
 { s.split_once(p.as_str()).map(|v| (v.0.to_string(), v.1.to_string())) }
+// ---- lang(): XPath 1.0 4.3 over the DOM as read above ----
+pub uninterp spec fn lower(s: Seq<char>) -> Seq<char>;       // str::to_lowercase
+#[verifier::external_body]
+pub fn shim_lower(s: &String) -> (r: String) ensures r@ == lower(s@) { s.to_lowercase() }
+// value.strip_prefix(name.as_str()): the rest behind the prefix, None when it is not one
+#[verifier::external_body]
+pub fn shim_strip_prefix(s: &String, p: &String) -> (r: Option<String>)
+    ensures r is Some <==> is_prefix(p@, s@), r is Some ==> r->Some_0@ == s@.subrange(p@.len() as int, s@.len() as int),
+{ s.strip_prefix(p.as_str()).map(|v| v.to_string()) }
+// rest.is_empty() || rest.starts_with('-')
+#[verifier::external_body]
+pub fn shim_empty_or_dash(rest: &String) -> (r: bool)
+    ensures r == (rest@.len() == 0 || rest@[0] == '-'),
+{ rest.is_empty() || rest.starts_with('-') }
+// the parent in the XPath data model: the element of an attribute, the DOM parent of any other node
+pub open spec fn xp_parent(n: dom::XmlNode) -> Option<dom::XmlNode> {
+    match n {
+        dom::XmlNode::Attribute(a) => match dom::owner_of(a) { Some(e) => Some(dom::XmlNode::Element(e)), None => None },
+        _ => dom::dom_parent_of(n),
+    }
+}
+pub open spec fn lang_tree_ok() -> bool { forall|n: dom::XmlNode| (#[trigger] xp_parent(n)) is Some ==> dom::depth(xp_parent(n)->Some_0) < dom::depth(n) }
+// "the value of the xml:lang attribute on the context node, or, if the context node has no xml:lang attribute, on the nearest
+// ancestor of the context node that has one"
+pub open spec fn language_of(n: dom::XmlNode) -> Option<Seq<char>>
+    decreases dom::depth(n),
+{
+    if n is Element && dom::lang_attr_of(n->Element_0) is Some { Some(dom::attr_value_of(dom::lang_attr_of(n->Element_0)->Some_0)) }
+    else { match xp_parent(n) { Some(p) => if dom::depth(p) < dom::depth(n) { language_of(p) } else { None }, None => None } }
+}
+// "equal to the argument ignoring case, or there is some suffix starting with - such that the attribute value is equal to the
+// argument ignoring that suffix of the attribute value and ignoring case"
+pub open spec fn lang_matches(value: Seq<char>, arg: Seq<char>) -> bool {
+    let v = lower(value); let a = lower(arg);
+    is_prefix(a, v) && (v.len() == a.len() || v[a.len() as int] == '-')
+}
+
 #[verifier::external_body]
 pub fn shim_string_new() -> (r: String)
     ensures r@ == Seq::<char>::empty(),
@@ -214,11 +266,11 @@ def build(repo=None):
     fns = {}
     C6 = ['C06']
 
-    def add(name, rules=(), ensures=(), loops=None, inject=(), attrs=(), props=None, label=None):
+    def add(name, rules=(), ensures=(), loops=None, inject=(), attrs=(), props=None, label=None, requires_extra=()):
         if name not in ar:
             raise rustscan.ScanError(f'lost anchor: func::table has no entry calling `{name}`')
         fns[name] = Fn(FF, None, name, props=props or C6, safety_props=C6, label=label or f'xpath::func::{name}', sig_rules=[R_UNUSED],
-                       rules=list(rules), requires=[arity_req(ar[name])], ensures=list(ensures), loops=loops, inject=list(inject), attrs=list(attrs))
+                       rules=list(rules), requires=[arity_req(ar[name])] + list(requires_extra), ensures=list(ensures), loops=loops, inject=list(inject), attrs=list(attrs))
 
     C5 = ['C05', 'C06']
     add('last', [R_ASVALUE])
@@ -258,8 +310,20 @@ def build(repo=None):
     add('not', [R_TOBOOL], props=C5, ensures=[('C05:negated_boolean_value_of_the_argument', 'r is Ok ==> r->Ok_0 is Boolean && r->Ok_0->Boolean_0 == !boolean_of(args@[0])')])
     add('ftrue', [], props=C5, ensures=[('C05:true', 'r is Ok && r->Ok_0 is Boolean && r->Ok_0->Boolean_0')])
     add('ffalse', [], props=C5, ensures=[('C05:false', 'r is Ok && r->Ok_0 is Boolean && !r->Ok_0->Boolean_0')])
-    add('lang', [R_TOSTRING, Rule('R8', r'attr\.value\(\)\? == name', 'shim_string_eq(&attr.value()?, &name)', 'String == String -> shim')],
-        attrs=['#[verifier::exec_allows_no_decreases_clause]'])
+    add('lang', [R_TOSTRING,
+                 Rule('R8', r'let name = (value_to_string\([^\n;]*\)\?)\.to_lowercase\(\);', r'let name = shim_lower(&\1);', 'str::to_lowercase -> shim (uninterpreted `lower`)'),
+                 Rule('R8', r'let value = attr\.value\(\)\?\.to_lowercase\(\);', 'let value = shim_lower(&attr.value()?);', 'str::to_lowercase -> shim'),
+                 Rule('R48', r'element\.get_attribute_node\("lang"\)', 'element.shim_lang_attribute()', 'lookup of the attribute with the local name lang -> shim'),
+                 Rule('R8', r'value\.strip_prefix\(name\.as_str\(\)\)', 'shim_strip_prefix(&value, &name)', 'str::strip_prefix -> shim'),
+                 Rule('R8', r"rest\.is_empty\(\) \|\| rest\.starts_with\('-'\)", 'shim_empty_or_dash(&rest)', 'str::is_empty / starts_with(char) -> shim'),
+                 Rule('R48', r'attr\.owner_element\(\)\.map\(\|v\| v\.as_node\(\)\)', 'dom::shim_owner_node(attr)', 'Option::map(as_node) over owner_element() -> shim')],
+        props=C5, requires_extra=[('the_dom_presents_a_tree', 'lang_tree_ok()')],
+        loops={0: dict(invariant=[('frame', 'lang_tree_ok() && name@ == lower(string_of(args@[0]))'),
+                                  ('C05:the_language_of_the_context_node_is_that_of_the_node_the_walk_has_reached', 'language_of(node) == (match n { Some(c) => language_of(c), None => None::<Seq<char>> })')],
+                       ensures=[('C05:no_ancestor_or_self_carries_a_language', 'language_of(node) is None')],
+                       decreases='(match n { Some(c) => dom::depth(c) + 1, None => 0 })')},
+        ensures=[('C05:true_exactly_when_the_nearest_xml_lang_is_the_language_or_a_sublanguage_of_it_ignoring_case',
+                  'r is Ok ==> r->Ok_0 is Boolean && r->Ok_0->Boolean_0 == (match language_of(node) { Some(v) => lang_matches(v, string_of(args@[0])), None => false })')])
     add('number', [R_NODEARG, R_TONUMBER], props=C5, ensures=[('C05:number_value_of_the_argument', 'args@.len() >= 1 && r is Ok ==> r->Ok_0 is Number && r->Ok_0->Number_0 == number_of(args@[0])')])
     add('sum', [R_TONUMBER, Rule('R22', r'let mut s = 0f64;', 'let mut s = shim_zero();', 'float literal -> shim'),
                 Rule('R36', r's \+= value_to_number\(&model::Value::Node\(vec!\[node\.clone\(\)\]\)\)\?', 'let __v = shim_node_value(node.clone()); s = shim_add(s, value_to_number(&__v)?);', 'float += and temporary borrow -> shims'),
